@@ -40,7 +40,10 @@ vars == <<litplus, utf8, sasl, state, closed, stuck, out>>
 \* FETCH-hdr: FETCH 1 BODY.PEEK[HEADER.FIELDS (<string>)] - the string comes back in the response (the section
 \* specification is echoed), so whatever the client put into it must leave the server as a well-formed string
 BufferedCmds == {"LOGIN-user", "LOGIN-pass", "CREATE", "LIST-pat", "SEARCH-str", "RENAME-new", "FETCH-hdr"}
-StreamCmds   == {"APPEND"}
+\* APPEND-fail / APPEND-panic: the backend refuses the message / panics BEFORE it has read the literal it was handed:
+\* the octets still on the wire are message data all the same
+StreamCmds   == {"APPEND", "APPEND-fail", "APPEND-panic"}
+FaultyBackend == {"APPEND-fail", "APPEND-panic"}
 SyntaxCmds   == {"NOOP-lit", "XUNK-lit"}       \* literal announced after a syntax error / unknown command
 \* no literal; AUTH-CANCEL and IDLE use continuation requests.  AUTH-FINAL: AUTHENTICATE XFINAL <initial response> -
 \* the mechanism accepts and has final data for the client: the server may send them in one more continuation
@@ -65,6 +68,7 @@ Units == [cmd : BufferedCmds \cup StreamCmds \cup SyntaxCmds, form : Forms, size
 WellFormedUnit(u) ==
   /\ u.form = "quoted" => u.size = "small" /\ u.payload = "benign" /\ u.cmd \in BufferedCmds
   /\ u.cmd \in PlainCmds => u.form = "none"
+  /\ u.cmd \in FaultyBackend => u.payload = "smuggle" /\ u.size # "huge"     \* (the interesting ones only)
 
 \* ---- acceptance of a literal -------------------------------------------
 \* Is the server willing to take a literal of this form and size class for this command?
@@ -102,7 +106,7 @@ Alive == ~closed /\ ~stuck
 
 CallOf(u) == IF u.cmd \in {"AUTH-CANCEL", "AUTH-FINAL"} THEN (IF sasl THEN "plain" ELSE "none")   \* the session is asked for the mechanism
              ELSE IF u.cmd = "NOOP" THEN "none"
-             ELSE IF u.cmd = "IDLE" THEN "plain"
+             ELSE IF u.cmd = "IDLE" \/ u.cmd \in FaultyBackend THEN "plain"   \* called, but the payload was not read
              ELSE IF u.cmd \in {"LIST-pat", "SEARCH-str", "LOGIN-user", "LOGIN-pass", "CREATE", "RENAME-new", "APPEND", "FETCH-hdr"} THEN "payload"
              ELSE "none"
 
@@ -114,7 +118,13 @@ MailboxCmds == {"CREATE", "LIST-pat", "RENAME-new"}
 Execute(u) ==
   /\ Alive /\ WellFormedUnit(u) /\ Accepts(u) /\ u.cmd \notin SyntaxCmds /\ u.cmd # "AUTH-FINAL"
   /\ LET c == IF u.form = "sync" \/ u.cmd \in {"AUTH-CANCEL", "IDLE"} THEN 1 ELSE 0 IN
-     IF Permitted(u)
+     IF Permitted(u) /\ u.cmd = "APPEND-fail"
+     THEN out' = Obs("NOTOK", c, "plain") /\ state' = state          \* the rest of the literal is discarded
+     ELSE IF Permitted(u) /\ u.cmd = "APPEND-panic"
+     THEN \* the connection is given up, or the command fails and the literal is discarded: never anything else
+          /\ \E t \in {"NOTOK", "NONE"} : out' = Obs(t, c, "plain")
+          /\ state' = state
+     ELSE IF Permitted(u)
      THEN \/ /\ out' = Obs(IF u.cmd = "AUTH-CANCEL" THEN "NOTOK" ELSE "OK", c, CallOf(u))
              /\ state' = IF u.cmd \in {"LOGIN-user", "LOGIN-pass"} THEN "auth" ELSE state
           \/ /\ u.cmd \in MailboxCmds /\ u.payload = "smuggle"
@@ -126,6 +136,8 @@ Execute(u) ==
   \* drop the connection (the property allows closing instead of going on)
   /\ \/ closed' = closed
      \/ closed' = TRUE /\ u.cmd \in MailboxCmds /\ u.payload = "smuggle" /\ out'.tagged = "NOTOK"
+     \/ closed' = TRUE /\ u.cmd = "APPEND-panic" /\ Permitted(u)
+  /\ out'.tagged = "NONE" => closed'
   /\ UNCHANGED <<litplus, utf8, sasl, stuck>>
 
 \* AUTHENTICATE with a mechanism that ends with data for the client
@@ -178,7 +190,8 @@ Spec == Init /\ [][Next]_vars
 TypeOK == state \in {"notauth", "auth"} /\ closed \in BOOLEAN /\ stuck \in BOOLEAN
 
 \* a continuation request is never sent for a refused literal, and at most one per unit
-ContOnlyWhenWilling == out.cont \in {0, 1} /\ (out.tagged = "NONE" => out.cont = 0)
+\* (a unit that got its continuation request and no completion is one whose connection was given up afterwards)
+ContOnlyWhenWilling == out.cont \in {0, 1} /\ (out.tagged = "NONE" => out.cont = 0 \/ closed)
 
 \* literal octets reach the backend only as the announced argument, and only when accepted
 PayloadOnlyAsArgument == out.call = "payload" => out.tagged = "OK"
